@@ -434,6 +434,30 @@ class World:
           res.w('cleared_imports')
         if out != 'ok':
           res.w('clear_after_failed_op')
+    # ---- the clear may be issued while a scope is open in the calling thread: the block goes on in its scope, scoped
+    # bindings made after the clear apply there, and leaving the block restores the caller's (root) scope
+    harness.hard_reset()
+    COUNT.clear()
+    for o in self.hist:
+      do_op(o)
+    try:
+      with deadline(10):
+        with gin.config_scope('s'):
+          gin.clear_config()
+          inside = gin.current_scope()
+          gin.bind_parameter('s/c20.f.a', 77)
+          r_in = F()
+          oper_in = gin.operative_config_str()
+        after = (gin.current_scope(), F())
+      seen = (inside, r_in[0], 's/c20.f.a = 77' in oper_in or 's/f.a = 77' in oper_in, after)
+    except Exception as e:  # pylint: disable=broad-except
+      seen = 'raised %r' % (e,)
+    want = (['s'], 77, True, ([], ('da', 'db')))
+    if seen != want:
+      res.violation('clear_inside_open_scope', 'history %r, then clear_config() inside `with config_scope(\'s\')`: observed %r, '
+                    'expected %r' % (hist, seen, want), {'history': list(hist), 'clear_constants': False})
+    else:
+      res.w('clear_inside_open_scope')
     # ---- two lives: history A, clear, then the same operations binding OTHER values (B) behave as B alone does
     # (anything keyed on a counter, a size or an identity that the clear rewinds would show here)
     if not any(o.startswith(('const_', 'interactive', 'enter_', 'exit_')) or o.endswith('_fails') for o in self.hist):
